@@ -359,6 +359,11 @@ def main():
         for m in [m for m in mismatches if pat.search(m["impl"])][:50]:
             failing.append(dict(oracle="implementation-outcome", suite=m["suite"], input=m["request"],
                                 detail="implementation: " + m["impl"][:1500] + " ||| model: " + m["model"][:1500]))
+    # a manager event trace the protocol checker rejects is a concrete history on which a protocol
+    # rule (the theorems of Drpc.Props.Manager are stated over accepted traces) is violated
+    for m in [m for m in mismatches if m["request"].startswith("mgrtrace ") and m["model"].startswith("reject")][:20]:
+        failing.append(dict(oracle="manager-protocol", suite=m["suite"], input=m["request"],
+                            detail="the manager's event trace violates its protocol (Drpc.Manager.Proto.allowed): " + m["model"][:300]))
     if mismatches and cfg.get("mismatch_is_violation"):
         # the property itself says "behaves like the (proved) reference": a difference on a concrete
         # input/history is a concrete failing input
